@@ -27,8 +27,8 @@ Inductive spart :=
 | PClass (v : str)                   (* .v  *)
 | PSet (l : list sattr).             (* [a1 a2 ... an], single spaces between *)
 
-(* an element: name, parts, and optionally a text `{T}` written last *)
-Record selem := mkSElem { se_name : str; se_parts : list spart; se_text : option str }.
+(* an element: name, parts, optionally a text `{T}`, optionally the self-closing mark `/` written last *)
+Record selem := mkSElem { se_name : str; se_parts : list spart; se_text : option str; se_close : bool }.
 
 (* ---------------------------------------------------------------- rendering to text *)
 Definition qchar (single : bool) : char := if single then c_squote else c_dquote.
@@ -62,7 +62,9 @@ Fixpoint parts_text (ps : list spart) : str :=
   match ps with [] => [] | p :: ps' => part_text p ++ parts_text ps' end.
 Definition tail_text (t : option str) : str :=
   match t with None => [] | Some T => c_lbrace :: T ++ [c_rbrace] end.
-Definition elem_text (e : selem) : str := se_name e ++ parts_text (se_parts e) ++ tail_text (se_text e).
+Definition close_text (b : bool) : str := if b then [c_slash] else [].
+Definition elem_text (e : selem) : str :=
+  se_name e ++ parts_text (se_parts e) ++ tail_text (se_text e) ++ close_text (se_close e).
 
 (* ---------------------------------------------------------------- alphabets *)
 (* characters that end an unquoted run inside [ ]: `=`, white space, quotes, brackets *)
@@ -178,9 +180,11 @@ Definition tail_toks (pos : nat) (t : option str) : list token :=
   | None => []
   | Some T => tk1 (TBracket true BExpr) pos :: text_tokens (pos + 1) T ++ [tk1 (TBracket false BExpr) (pos + 1 + length T)]
   end.
+Definition close_toks (pos : nat) (b : bool) : list token := if b then [tk1 (TOperator OpClose) pos] else [].
 Definition elem_toks (pos : nat) (e : selem) : list token :=
   word_tok pos (se_name e) :: parts_toks (pos + length (se_name e)) (se_parts e)
-  ++ tail_toks (pos + length (se_name e) + length (parts_text (se_parts e))) (se_text e).
+  ++ tail_toks (pos + length (se_name e) + length (parts_text (se_parts e))) (se_text e)
+  ++ close_toks (pos + length (se_name e) + length (parts_text (se_parts e)) + length (tail_text (se_text e))) (se_close e).
 
 (* ================================================================ segments *)
 Definition seg (ctx : tctx) (s : str) (ts : nat -> list token) (ctx' : tctx) (P : str -> Prop) : Prop :=
@@ -298,17 +302,22 @@ Definition CA (g : Z) : tctx := mkCtx g 1 0 None.
 Definition CQ (g : Z) (q : char) : tctx := mkCtx g 1 0 (Some q).
 Definition CE (g : Z) : tctx := mkCtx g 1 1 None.
 
-(* what may follow a word at element level: anything that is not a name character (nor `\`, `/`) *)
+(* what may follow a word at element level: anything that is not a name character nor `\`; a `/` only
+   when no digit follows it (between two digits `/` is part of the word: `w-1/2`) *)
 Definition wstop (rest : str) : Prop :=
   match rest with
   | [] => True
-  | c :: _ => is_element_name c = false /\ c <> c_bslash /\ c <> c_slash
+  | c :: r => is_element_name c = false /\ c <> c_bslash /\ (c = c_slash -> peek_p is_digit_py r = false)
   end.
 
 Lemma lit_stop0 prev c r : wstop (c :: r) -> lit None 0 0 0 prev false (c :: r) = ([], O, 0%Z).
 Proof.
   intros [Hn [Hb Hs]]. rewrite lit_cons. cbv beta zeta.
-  apply N.eqb_neq in Hb. apply N.eqb_neq in Hs. rewrite Hb, Hs. cbn [andb orb].
+  apply N.eqb_neq in Hb. rewrite Hb.
+  assert (Hsp : (c =? c_slash) && true && negb (truthy 0) && negb (truthy 0)
+                && match prev with Some p => is_digit_py p | None => false end && peek_p is_digit_py r = false).
+  { destruct (c =? c_slash) eqn:E; [|reflexivity]. apply N.eqb_eq in E. rewrite (Hs E). apply andb_false_r. }
+  rewrite Hsp. cbn [orb].
   destruct ((c =? c_dollar) || is_allowed_operator c (mkCtx 0 0 0 None)); [reflexivity|].
   replace (truthy 0) with false by reflexivity. rewrite Hn. reflexivity.
 Qed.
@@ -343,7 +352,7 @@ Proof.
   - exact (lit_word0 (c :: a) prev rest HF Hst).
 Qed.
 
-Ltac wstop_const := cbn [wstop]; split; [vm_compute; reflexivity|split; discriminate].
+Ltac wstop_const := cbn [wstop]; split; [vm_compute; reflexivity|split; [discriminate|intros E; discriminate E]].
 
 (* `#` and `.` at element level are operators *)
 Lemma seg_op0 g c op :
@@ -902,20 +911,49 @@ Qed.
 Lemma tail_text_wstop t rest : wstop rest -> wstop (tail_text t ++ rest).
 Proof. destruct t; cbn [tail_text app]; [intros _; apply wstop_lbrace|auto]. Qed.
 
+(* `/` at element level is the Close operator (unless it stands between two digits) *)
+Lemma seg_close g :
+  seg (C0 g) [c_slash] (fun pos => [tk1 (TOperator OpClose) pos]) (C0 g) (fun rest => peek_p is_digit_py rest = false).
+Proof.
+  apply (seg_token (C0 g) c_slash [] (TOperator OpClose) (C0 g)).
+  intros prev rest Hd. cbn [app].
+  apply consume_operator; try reflexivity.
+  eexists. apply lit_stop0. cbn [wstop]. split; [reflexivity|]. split; [discriminate|]. intros _. exact Hd.
+Qed.
+
+(* what may follow an element: as for a word, and (for the `/` mark) not a digit *)
+Definition estop (rest : str) : Prop := wstop rest /\ peek_p is_digit_py rest = false.
+
+Lemma seg_close_opt g b :
+  seg (C0 g) (close_text b) (fun pos => close_toks pos b) (C0 g) estop.
+Proof.
+  destruct b; cbn [close_text close_toks].
+  - apply (seg_weaken _ _ _ _ (fun rest => peek_p is_digit_py rest = false)); [intros rest [_ H]; exact H|]. apply seg_close.
+  - apply seg_nil.
+Qed.
+
+Lemma close_text_wstop b rest : estop rest -> wstop (close_text b ++ rest).
+Proof.
+  intros [Hw Hd]. destruct b; cbn [close_text app]; [|exact Hw].
+  cbn [wstop]. split; [reflexivity|]. split; [discriminate|]. intros _. exact Hd.
+Qed.
+
 Theorem seg_elem g e :
-  selem_ok e -> seg (C0 g) (elem_text e) (fun pos => elem_toks pos e) (C0 g) wstop.
+  selem_ok e -> seg (C0 g) (elem_text e) (fun pos => elem_toks pos e) (C0 g) estop.
 Proof.
   intros [Hn [Hp Ht]]. unfold elem_text.
   eapply seg_app'; [apply seg_word0; exact Hn| | |].
-  - eapply seg_app'; [apply seg_parts; exact Hp|apply seg_tail; exact Ht| |intros pos; reflexivity].
-    intros rest. apply tail_text_wstop.
-  - intros rest Hr. rewrite <- app_assoc. apply parts_text_wstop. apply tail_text_wstop. exact Hr.
+  - eapply seg_app'; [apply seg_parts; exact Hp| | |intros pos; reflexivity].
+    + eapply seg_app'; [apply seg_tail; exact Ht|apply seg_close_opt| |intros pos; reflexivity].
+      intros rest. apply close_text_wstop.
+    + intros rest Hr. rewrite <- app_assoc. apply tail_text_wstop. apply close_text_wstop. exact Hr.
+  - intros rest Hr. rewrite <- !app_assoc. apply parts_text_wstop. apply tail_text_wstop. apply close_text_wstop. exact Hr.
   - intros pos. unfold elem_toks. cbn [app]. reflexivity.
 Qed.
 
 (* the tokenizer on the text of an element *)
 Theorem tokenize_elem e : selem_ok e -> tokenize (elem_text e) = TOk (elem_toks 0 e).
 Proof.
-  intros H. unfold tokenize. pose proof (seg_elem 0%Z e H None 0%nat [] I) as E.
+  intros H. unfold tokenize. pose proof (seg_elem 0%Z e H None 0%nat [] (conj I eq_refl)) as E.
   rewrite app_nil_r in E. change (C0 0) with ctx0 in E. rewrite E. cbn [toks tcons]. rewrite app_nil_r. reflexivity.
 Qed.
